@@ -60,6 +60,51 @@ CHECKS.update({
     ),
 })
 
+CHECKS.update({
+    "C12": dict(
+        engine="HttpGate", category="model_checking",
+        text=("HttpGateDefs/HeaderMirrorDefs state C12 as two TLA+ decision tables: the gate order of the streamable and SSE handlers, and the client-encode / HTTP-hop / "
+              "server-validate chain for x-mcp-header values. TLC enumerates every abstract POST request within K deviations (3 quick: 14k cases, 5 thorough: 334k) plus an "
+              "all-faults product, and the complete 540-case mirror table, checks the code-shaped tables against the property and exports the cases; every case is executed on "
+              "the real handlers and through the real client, streamable transport and stateless server; the TLA+ monitors HttpGateMon/HeaderMirrorMon judge status, error code "
+              "and whether any middleware or handler observed the message."),
+        design_ref="DESIGN.md section 6 C12, 5.6",
+        note="Trusted: TLC; seeded concretisation of abstract classes; injected http.LocalAddrContextKey instead of a socket; in-process Request.Write/ReadRequest hop; the gate product is K-bounded, the mirror table complete.",
+        technique="TLA+ decision tables enumerated by TLC; conformance replay on real handlers under synctest; TLA+ monitors",
+    ),
+    "C13": dict(
+        engine="KeepAlive", category="model_checking",
+        text=("KeepAlive.tla models the ticker loop of startKeepalive with an explicit clock and an environment-chosen ping outcome script; TLC checks Accuracy/Completeness/"
+              "Timing/SilentStop/NoLeftovers exhaustively for all 5461 scripts over {answered, timed-out, method-not-found, connection-error} up to length 6 x thresholds x owner "
+              "closing idle/in-flight (241k states) and exports all 43 688 behaviours. Every behaviour runs on the real code under synctest at the function level, and every "
+              "distinct run on a real ServerSession and a real legacy ClientSession against a scripted peer; the TLA+ monitor KeepAliveMon judges the virtual-time observations."),
+        design_ref="DESIGN.md section 6 C13",
+        note="Trusted: TLC; testing/synctest virtual time; the scripted peer/Connection; the goroutine-dump census; script length <= 6.",
+        technique="TLA+ spec + TLC exhaustive; exhaustive replay of TLC-generated cases into real code with quiescence/leak check; TLA+ monitor",
+    ),
+    "C15": dict(
+        engine="OAuthFlow", category="model_checking",
+        text=("OAuthFlow.tla models AuthorizationCodeHandler.Authorize step by step (challenge, 3 PRM locations, root-AS fallback, 5 AS-metadata locations, predefined endpoints, "
+              "CIMD/pre-registered/DCR registration, state and RFC 9207 checks, exchange, install) with the environment choosing the document or HTTP outcome at every fetch; TLC "
+              "checks the seven C15 invariants exhaustively (35k states) and dumps the state graph. A cover of every labelled edge plus seeded behaviours (quick), and every terminal "
+              "behaviour of a reduced configuration plus 120k samples (thorough), are replayed on the real Authorize through a fake RoundTripper and scripted code fetcher; every "
+              "observation is judged by the TLA+ monitor OAuthFlowMon."),
+        design_ref="DESIGN.md section 6 C15",
+        note="Trusted: TLC; the harness' URL classification and provenance map; finite variant sets; no TLS and no redirects; x/oauth2 sends the token request it is asked to.",
+        technique="TLA+ spec + TLC exhaustive; state-graph transition cover and behaviour enumeration replayed on the real code; TLA+ monitor",
+    ),
+    "C16": dict(
+        engine="TypedTool", category="model_checking",
+        text=("An independent JSON-Schema validator and default-application semantics written in TLA+ (TypedToolDefs) are evaluated by TLC over a complete bounded family of "
+              "129 526 (schema / Go type, value) cases; TLC checks the code-shaped procedure of toolForErr/applySchema against the property on every case. Every case (quick: all "
+              "output, valid, boundary and reflected cases + 3000 samples; thorough: all) is executed as a real tools/call through mcp.AddTool, a real Server and a real Client, and "
+              "every outcome is judged by the same TLA+ predicates."),
+        design_ref="DESIGN.md section 6 C16",
+        note="Trusted: TLC + CommunityModules Json; the TLA+ schema exporter; the harness' tagged-JSON codec and struct projections; the in-memory transport.",
+        technique="TLA+ decision table with an independent validator; TLC-enumerated product; TLA+ monitor over real outcomes",
+    ),
+})
+
 NOT_YET = "check not built yet in this round (planned with the same technique; see DESIGN.md section 6)"
 
 def main():
